@@ -20,6 +20,14 @@ class Unsupported(Exception):
     pass
 
 
+class _Break(Exception):
+    pass
+
+
+class _Continue(Exception):
+    pass
+
+
 class Val:
     def __init__(self, v: str):
         self.v = v
@@ -75,7 +83,16 @@ class Mini:
         elif isinstance(s, ast.For) and isinstance(s.target, ast.Name):
             for x in self._expr(s.iter, env):
                 env[s.target.id] = x
-                self._block(s.body, env)
+                try:
+                    self._block(s.body, env)
+                except _Continue:
+                    continue
+                except _Break:
+                    break
+        elif isinstance(s, ast.Break):
+            raise _Break()
+        elif isinstance(s, ast.Continue):
+            raise _Continue()
         elif isinstance(s, ast.Raise):
             txt = norm(s.exc) if s.exc is not None else ""
             if "NotImplementedError" in txt:
@@ -186,8 +203,9 @@ def order_independence(idx: Index, rep: Report) -> None:
         """Returns True if accepted; state is mutated by the analysed code exactly as written."""
         fa, fid = state["assigned"], state["incdec"]
         try:
-            if item == "SIM":
-                sim = {"__sim__": True, "fluents": [("fluent", state["bool"])]}
+            if isinstance(item, str) and item.startswith("SIM"):
+                me, other = ("fluent", state["bool"]), ("other-fluent", state["bool"])
+                sim = {"__sim__": True, "fluents": {"SIM": [me], "SIM-other-first": [other, me], "SIM-other-last": [me, other]}[item]}
                 mini_s.call({"simulated_effect": sim, "timing": None, "fluents_assigned": fa, "fluents_inc_dec": fid, "name": "n"})
                 state["sim"] = sim
             else:
@@ -203,16 +221,16 @@ def order_independence(idx: Index, rep: Report) -> None:
     n_pairs = 0
     unsupported: Set[str] = set()
     for boolean in (False, True):
-        items: List[Any] = ["SIM"]
+        items: List[Any] = ["SIM", "SIM-other-first", "SIM-other-last"]
         for cond in (False, True):
             items += [Eff("assign", "v1", cond, boolean), Eff("assign", "v2", cond, boolean), Eff("increase", "d", cond, boolean), Eff("decrease", "d", cond, boolean)]
         if boolean:
-            items = [i for i in items if i == "SIM" or i.kind == "assign"]
+            items = [i for i in items if isinstance(i, str) or i.kind == "assign"]
         for a, b in itertools.combinations_with_replacement(items, 2):
-            if a == "SIM" and b == "SIM":
+            if isinstance(a, str) and isinstance(b, str):
                 continue
-            la = a if a == "SIM" else a.label()
-            lb = b if b == "SIM" else b.label()
+            la = a if isinstance(a, str) else a.label()
+            lb = b if isinstance(b, str) else b.label()
             verdicts = []
             leaks = []
             try:
@@ -232,8 +250,8 @@ def order_independence(idx: Index, rep: Report) -> None:
             n_pairs += 1
             rep.check(verdicts[0] == verdicts[1], rule, f"[{la}] and [{lb}] are accepted together in both insertion orders or in neither", ce.loc(), construct=f"{la} ; {lb} -> {'accepted' if verdicts[0] else 'rejected'} / reversed -> {'accepted' if verdicts[1] else 'rejected'}", detail="" if verdicts[0] == verdicts[1] else "whether the conflict error is raised depends on the insertion order", function=ce.qualname)
             for first, second, before, after in leaks:
-                lf = first if first == "SIM" else first.label()
-                ls = second if second == "SIM" else second.label()
+                lf = first if isinstance(first, str) else first.label()
+                ls = second if isinstance(second, str) else second.label()
                 rep.bad("C24.3 T15 rejection-leaves-bookkeeping-unchanged", f"after [{lf}], rejecting [{ls}]", ce.loc(), construct=f"rejecting [{ls}] after [{lf}] changes the bookkeeping {before} -> {after}", detail="a rejected insertion is recorded in the conflict bookkeeping; later insertions are judged as if it had been added", function=ce.qualname)
             if not leaks:
                 rep.ok("C24.3 T15 rejection-leaves-bookkeeping-unchanged", f"[{la}] / [{lb}]: a rejection leaves the bookkeeping unchanged", ce.loc(), function=ce.qualname)
